@@ -1,9 +1,185 @@
 import Drive.Json
-/-! Line-protocol handlers: Files (stub until the model lands). -/
+import PlaybackModel.FileIntercept
+/-! Line-protocol handlers for the file interception model (C20). -/
 open Lean
 namespace Drive.Files
-open Drive
+open Drive PlaybackModel.FileIntercept
 
-def handlers : List (String × Handler) := []
+def hexVal (c : Char) : Option Nat :=
+  if '0' ≤ c ∧ c ≤ '9' then some (c.toNat - 48)
+  else if 'a' ≤ c ∧ c ≤ 'f' then some (c.toNat - 87)
+  else none
+
+/-- hex text → bytes (tail recursive: contents may be a few MB) -/
+def unhexGo : List Char → List UInt8 → Except String (List UInt8)
+  | [], acc => .ok acc.reverse
+  | [_], _ => .error "odd hex length"
+  | a :: b :: r, acc =>
+    match hexVal a, hexVal b with
+    | some x, some y => unhexGo r (UInt8.ofNat (x * 16 + y) :: acc)
+    | _, _ => .error "bad hex digit"
+
+def unhex (s : String) : Except String Bytes := unhexGo s.toList []
+
+def hexDigit (n : Nat) : Char := if n < 10 then Char.ofNat (48 + n) else Char.ofNat (87 + n)
+
+def hexGo : List UInt8 → List Char → List Char
+  | [], acc => acc.reverse
+  | b :: r, acc => hexGo r (hexDigit (b.toNat % 16) :: hexDigit (b.toNat / 16) :: acc)
+
+def hex (bs : Bytes) : String := String.ofList (hexGo bs [])
+
+/-- content: {"hex": "…"} | {"zeros": n} -/
+def toContent (j : Json) : Except String Bytes :=
+  match optField j "hex", optField j "zeros" with
+  | some h, _ => do unhex (← asStr h)
+  | _, some n => do .ok (List.replicate (← asNat n) 0)
+  | _, _ => .error s!"bad content {j.compress}"
+
+def toPVal (j : Json) : Except String PVal :=
+  match j with
+  | .null => .ok .none
+  | .str "o" => .ok .other
+  | _ => match optField j "s" with
+    | some s => do .ok (.str (← asStr s))
+    | none => .error s!"bad pval {j.compress}"
+
+def pvalJson : PVal → Json
+  | .none => Json.null
+  | .other => Json.str "o"
+  | .str s => jObj [("s", Json.str s)]
+
+def toKwargs (j : Json) : Except String (List (String × PVal)) := do
+  mapM' (fun kv => do
+    match ← asArr kv with
+    | [k, v] => .ok ((← asStr k), (← toPVal v))
+    | _ => .error "bad kwarg") (← asArr j)
+
+structure Call where
+  args : List PVal
+  kwargs : List (String × PVal)
+
+def toCall (j : Json) : Except String Call := do
+  .ok { args := ← mapM' toPVal (← arrField j "args"), kwargs := ← toKwargs (← field j "kwargs") }
+
+def toFiles (j : Json) : Except String (List (String × Bytes)) := do
+  mapM' (fun kv => do
+    match ← asArr kv with
+    | [k, v] => .ok ((← asStr k), (← toContent v))
+    | _ => .error "bad file") (← asArr j)
+
+def toRatio (j : Json) : Except String (Int × Nat) := do
+  match ← asArr j with
+  | [a, b] => .ok ((← asInt a), (← asNat b))
+  | _ => .error "bad ratio"
+
+def toLimit (j : Json) : Except String Limit := do
+  let explicit ← match optField j "explicit" with
+    | some r => do let (n, d) ← toRatio r; pure (some ({ num := n, den := d } : Limit))
+    | none => pure none
+  let env ← match optField j "env" with
+    | some r => do pure (some (← toRatio r))
+    | none => pure none
+  .ok (effectiveLimit explicit env)
+
+abbrev FH := PlaybackModel.FileIntercept.Handler
+
+def toHandler (j : Json) (lim : Limit) : Except String FH := do
+  .ok { index := ← natField j "index", name := ← strField j "name", limit := lim }
+
+def errName : Err → String
+  | .indexError => "IndexError"
+  | .typeError => "TypeError"
+  | .osError => "OSError"
+
+def envJson (e : Envelope) : List (String × Json) :=
+  [("stored", Json.str (hex e.content)), ("path", pvalJson e.path)]
+
+def holderJson (hd : Holder) : List (String × Json) :=
+  [("holder", Json.str (hex hd.content)), ("holder_path", pvalJson hd.path)]
+
+def readsJson (fs : FS) : Json := jArr (fs.reads.reverse.map Json.str)
+
+/-- {"m":"c20.path","h":{index,name},"call":{args,kwargs}} → pval | "IndexError" -/
+def pathH : Drive.Handler := fun j => do
+  let h ← toHandler (← field j "h") ⟨0, 1⟩
+  let c ← toCall (← field j "call")
+  match filePath h c.args c.kwargs with
+  | .ok v => .ok (jObj [("path", pvalJson v)])
+  | .error e => .ok (jObj [("error", Json.str (errName e))])
+
+/-- {"m":"c20.limit","limit":{explicit,env},"sizes":[n..]} → {"limit":[num,den],"above":[bool..]} -/
+def limitH : Drive.Handler := fun j => do
+  let lim ← toLimit (← field j "limit")
+  let sizes ← mapM' asNat (← arrField j "sizes")
+  .ok (jObj [("limit", jArr [Json.str (toString lim.num), Json.str (toString lim.den)]),
+             ("above", jArr (sizes.map fun s => Json.bool (aboveLimit s lim)))])
+
+/-- {"m":"c20.b64","hex":…} → {"b64":hex,"back":hex} -/
+def b64H : Drive.Handler := fun j => do
+  let bs ← unhex (← strField j "hex")
+  .ok (jObj [("b64", Json.str (hex (b64 bs))), ("back", Json.str (hex (unb64 (b64 bs))))])
+
+/-- the full trip: record (input then output), cassette, replay in an empty file system.
+The operation modelled is the harness operation: call the input function (its body writes `inContent` at `recInPath`), read
+the file back (harness I/O, not logged), write the output file (`out` content, or an echo of what was read) at
+`recOutPath`, call the output function. -/
+def tripH : Drive.Handler := fun j => do
+  let lim ← toLimit (← field j "limit")
+  let inH ← toHandler (← field j "inH") lim
+  let outH ← toHandler (← field j "outH") lim
+  let recIn ← toCall (← field j "recIn")
+  let repIn ← toCall (← field j "repIn")
+  let recOut ← toCall (← field j "recOut")
+  let repOut ← toCall (← field j "repOut")
+  let repInPath ← strField j "repInPath"
+  let recOutPath ← strField j "recOutPath"
+  let repOutPath ← strField j "repOutPath"
+  let recFiles ← toFiles (← field j "recFiles")
+  let repFiles ← toFiles (← field j "repFiles")
+  let recInPath ← strField j "recInPath"
+  let repDecoy ← strField j "repDecoy"
+  let echo := match fieldD j "out" Json.null with
+    | .str "echo" => true
+    | _ => false
+  let outGiven ← if echo then pure [] else toContent (← field j "out")
+  -- record
+  let fs1 : FS := { files := recFiles, reads := [] }
+  let inContent := (fs1.get recInPath).getD []
+  let (fsA, r1) := prepare fs1 inH recIn.args recIn.kwargs
+  let outRec := if echo then inContent else outGiven
+  let fsB := fsA.write recOutPath outRec
+  let (fsC, r2) := prepare fsB outH recOut.args recOut.kwargs
+  match r1, r2 with
+  -- a failing prepare discards the recording: later calls are no longer intercepted (no output prepare, no read)
+  | .error e, _ => .ok (jObj [("discarded", Json.str (errName e)), ("rec_reads", readsJson fsA)])
+  | _, .error e => .ok (jObj [("discarded", Json.str (errName e)), ("rec_reads", readsJson fsC)])
+  | .ok envIn, .ok envOut =>
+    -- replay in a fresh directory
+    let fs0 : FS := { files := repFiles, reads := [] }
+    let (fsD, r3) := restoreInput fs0 inH (cassetteRT envIn) repIn.args repIn.kwargs
+    let restored := fsD.get repInPath
+    let restoredJson : Json := match restored with
+      | some bs => Json.str (hex bs)
+      | none => Json.null
+    let retJson : Json := match r3 with
+      | .ok p => jObj [("s", Json.str p)]
+      | .error e => Json.str (errName e)
+    let outRep := if echo then restored.getD [] else outGiven
+    let fsE := fsD.write repOutPath outRep
+    let (fsF, r4) := prepare fsE outH repOut.args repOut.kwargs
+    let pb : Json := match r4 with
+      | .ok envPb => jObj (envJson envPb ++ holderJson (restoreOutput envPb))
+      | .error e => Json.str (errName e)
+    .ok (jObj [("in", jObj (envJson envIn)), ("rec_reads", readsJson fsC),
+               ("out", jObj (envJson envOut ++ holderJson (restoreOutput (cassetteRT envOut)))),
+               ("restored_ret", retJson), ("restored_bytes", restoredJson),
+               ("rep_decoy", match fsD.get repDecoy with
+                  | some bs => Json.str (hex bs)
+                  | none => Json.null),
+               ("rep_reads", readsJson fsF), ("pb", pb)])
+
+def handlers : List (String × Drive.Handler) :=
+  [("c20.path", pathH), ("c20.limit", limitH), ("c20.b64", b64H), ("c20.trip", tripH)]
 
 end Drive.Files
